@@ -33,7 +33,9 @@ def uf_bytes(name, args, out_len):
     hit = _UF_CACHE.get(ck)
     if hit is not None:
         c.has_uf = True
-        return SymBytes(hit[1])
+        out = SymBytes(hit[1])
+        _collision_free(c, sig_name, ck, args, out)
+        return out
     terms = [bv_of(a) for a in args]
     nz = [t for t in terms if t is not None]
     sorts = [t.sort() for t in nz] + [z3.BitVecSort(8 * out_len)]
@@ -44,7 +46,23 @@ def uf_bytes(name, args, out_len):
     if len(_UF_CACHE) > 200000:
         _UF_CACHE.clear()
     _UF_CACHE[ck] = ([list(a.e) for a in args], list(out.e))   # argument elements are kept alive so that AST ids stay valid
+    _collision_free(c, sig_name, ck, args, out)
     return out
+
+
+def _collision_free(c, sig_name, ck, args, out):
+    """Optional idealisation (fault scenarios): applications of a hash / KDF to different inputs give different outputs.
+    Enabled by ctx.path_data['collision_free'] = True; instances are added pairwise per function signature."""
+    if not c.path_data.get("collision_free"):
+        return
+    reg = c.path_data.setdefault("uf_apps", {}).setdefault(sig_name, {})
+    if ck in reg:
+        return
+    nz = [a for a in args if len(a) > 0]
+    for ck2, (args2, out2) in reg.items():
+        same = [a.bv() == b.bv() for a, b in zip(nz, [x for x in args2 if len(x) > 0])]
+        axiom(z3.Or(z3.And(*same) if same else z3.BoolVal(True), out.bv() != out2.bv()))
+    reg[ck] = (list(args), out)
 
 
 def same_terms(a, b):
